@@ -17,8 +17,13 @@ def build(src, optimize=True, poles=None, plan=True, name="<string>"):
     lo = ASTLowerer(an, d); ir = lo.lower_program(prog)
     ir0 = list(ir)
     if optimize:
-        ir = ConstantPropagationOptimizer().optimize(ir)
-        ir = CSEOptimizer().optimize(ir)
+        # same order as compile_dsl_source: each pass, then the name table follows its replacements
+        try:
+            from dsl_compiler.src.ir.optimizer import repoint_signal_refs
+        except ImportError:
+            repoint_signal_refs = lambda refs, repl: None
+        cp = ConstantPropagationOptimizer(); ir = cp.optimize(ir); repoint_signal_refs(lo.signal_refs, getattr(cp, "replacements", {}))
+        cse = CSEOptimizer(); ir = cse.optimize(ir); repoint_signal_refs(lo.signal_refs, getattr(cse, "replacements", {}))
     lp = None
     if plan:
         pl = LayoutPlanner(lo.ir_builder.signal_type_map, diagnostics=d, signal_refs=lo.signal_refs,
